@@ -105,6 +105,10 @@ func verifHarness_R1f_Digits() {
 	if verifChoice("fn", 2) == 0 {
 		l, c, u := nondetU32("lower"), nondetU32("central"), nondetU32("upper")
 		verifAssume(l <= c && c <= u && u < 1000000000)
+		// case split on the number of decimal digits of the upper bound (fixes the trip count of the digit loop)
+		p10 := []uint32{0, 10, 100, 1000, 10000, 100000, 1000000, 10000000, 100000000, 1000000000}
+		ud := verifChoice("udigits", 9)
+		verifAssume(u >= p10[ud] && u < p10[ud+1])
 		ryuDigits32(&a, l, c, u, c0, cup, 8)
 		verifS_ryuDigits32(&b, l, c, u, c0, cup, 8)
 	} else {
